@@ -22,9 +22,9 @@ claim("C17", "proof",
       "Trusts clang/gcc object emission, nm, gcc -fstack-usage/-fcallgraph-info and engine/irload.py; libc functions on the allow-list are assumed not to allocate on the library's behalf.",
       "static analysis: object-code symbol/stack-usage enumeration + IR call-graph SCC check", "DESIGN.md section 4 C17")
 claim("C18", "translation_validation",
-      "Clause (a): every unit compiled with -fsigned-char and -funsigned-char yields instruction-identical LLVM IR at -O2 (and -O0, reported), so no compiled behaviour can depend on plain-char signedness. Cross-compiler/optimisation-level output equality is a run-time differential property and is NOT decided.",
+      "Clause (a): every unit compiled with -fsigned-char and -funsigned-char yields instruction-identical LLVM IR at -O2 (and -O0, reported), so no compiled behaviour can depend on plain-char signedness. Clause (b): the arithmetic whose meaning moves between compilers and flags and is still visible in the IR - every nsw add/sub/mul, every shift amount, every divisor, every size_t->int conversion feeding a %.*s precision - is shown by the abstract interpreter not to overflow / to stay below the width / to preserve the value, in every no-error calling context. Cross-compiler/optimisation-level equality of observable outputs is a run-time differential property and is NOT decided; the strict-aliasing pun on the double is visible but not armed (no misbehaviour can be shown with the compilers present).",
       "Identical IR implies identical behaviour for a fixed back end; normalisation drops only metadata/attribute groups.",
-      "static analysis: IR identity (translation validation) across char-signedness builds", "DESIGN.md section 4 C18")
+      "static analysis: IR identity (translation validation) across char-signedness builds + abstract-interpretation UB obligations", "DESIGN.md section 4 C18")
 
 EXTRA = os.path.join(HERE, 'tools', 'manifest_claims.py')
 if os.path.exists(EXTRA):
